@@ -310,6 +310,57 @@ theorem read_map_translated (cap data : Nat) (hd : 0 < data) (ops : List Op) (hw
     have : len = 0 := by omega
     exact e2 this
 
+/-- **C02.2(a) for the translated code** — a region `[addr, addr + n)` handed to the writer after any well-formed history does not
+intersect the region any reader has mapped at that moment: reader `i`'s region starts at `data + holds_pos[i]` (the C field) and has
+the length the model gives it (`C02.regionLen`, 0 when the reader is not mapped). -/
+theorem write_avoids_mapped_readers (cap data : Nat) (hd : 0 < data) (ops : List Op) (hwf : wfRun (Sys.init cap) ops = true)
+    (n addr : Nat) (hw : (cstep (crun (CSys.init cap data) ops) (.wmap n)).2 = .wok addr) (i : Nat)
+    (hi : i < (crun (CSys.init cap data) ops).ch.holds_n) :
+    C02.regionLen (run (Sys.init cap) ops) i = 0 ∨
+      addr + n ≤ data + (crun (CSys.init cap data) ops).ch.holds_pos.getD i 0 ∨
+      data + (crun (CSys.init cap data) ops).ch.holds_pos.getD i 0 + C02.regionLen (run (Sys.init cap) ops) i ≤ addr := by
+  have hs := refine_history cap data hd ops hwf
+  have hreach : Reachable cap (run (Sys.init cap) ops) (grun (Sys.init cap) {} ops) := ⟨⟨ops, hwf, rfl, rfl⟩⟩
+  obtain ⟨_, ho, _⟩ := refine_step hs hreach.inv (.wmap n) rfl
+  have hdat := crun_data (Sim.init cap data hd) (Inv.init cap) ops hwf
+  have hd' : (CSys.init cap data).ch.data = data := rfl
+  have hn := hs.n_le hreach.inv
+  rw [hw] at ho
+  cases hm : (step (run (Sys.init cap) ops) (.wmap n)).2 with
+  | wok beg =>
+    rw [hm] at ho
+    simp only [OutRel] at ho
+    rw [hdat, hd'] at ho
+    have hav := (C02.write_avoids_readers hreach n beg hm i (by omega)).1
+    have hb : C02.regionBeg (run (Sys.init cap) ops) i = (crun (CSys.init cap data) ops).ch.holds_pos.getD i 0 := by
+      unfold C02.regionBeg nth
+      rw [← hs.ch]
+      simp only [abs]
+      rw [holdsOf_getD _ _ _ _ hi]
+    rw [hb] at hav
+    omega
+  | unit => rw [hm] at ho; exact absurd ho (by simp [OutRel])
+  | wnull => rw [hm] at ho; exact absurd ho (by simp [OutRel])
+  | wblock => rw [hm] at ho; exact absurd ho (by simp [OutRel])
+  | slice a b c => rw [hm] at ho; exact absurd ho (by simp [OutRel])
+  | bad => rw [hm] at ho; exact absurd ho (by simp [OutRel])
+
+/-- **C01.6 for the translated code** — after any well-formed history every reader handle the callers hold has status `Channel_Ok`. -/
+theorem status_stays_ok (cap data : Nat) (hd : 0 < data) (ops : List Op) (hwf : wfRun (Sys.init cap) ops = true)
+    (r : CReader) (hr : r ∈ (crun (CSys.init cap data) ops).rds) : r.status = 0 := by
+  have hs := refine_history cap data hd ops hwf
+  have hreach : Reachable cap (run (Sys.init cap) ops) (grun (Sys.init cap) {} ops) := ⟨⟨ops, hwf, rfl, rfl⟩⟩
+  obtain ⟨i, hi, rfl⟩ := List.getElem_of_mem hr
+  have hl : (run (Sys.init cap) ops).rds.length = (crun (CSys.init cap data) ops).rds.length := by
+    rw [← hs.rds, List.length_map]
+  have h0 := C01.status_stays_ok hreach i (by omega)
+  have he : nth (run (Sys.init cap) ops).rds i = absRd ((crun (CSys.init cap data) ops).rds[i]) := by
+    unfold nth
+    rw [← hs.rds, List.getD_eq_getElem?_getD, List.getElem?_map, List.getElem?_eq_getElem hi]
+    rfl
+  rw [he] at h0
+  exact h0
+
 /-! ## non-vacuity: a concrete history with a wrap, a lap change and partial consumption, run through the translated functions -/
 def demoOps : List Op :=
   [.join, .wmap 10, .wcommit, .rmap 0, .runmap 0 10, .join, .runmap 1 10, .wmap 10, .wcommit, .rmap 0, .runmap 0 3,
@@ -323,5 +374,11 @@ example : (crun (CSys.init 16 4096) demoOps).ch.cycle = 1 ∧ (crun (CSys.init 1
 example : (abs (crun (CSys.init 16 4096) demoOps).ch).holds = (run (Sys.init 16) demoOps).c.holds ∧
     (abs (crun (CSys.init 16 4096) demoOps).ch).head = (run (Sys.init 16) demoOps).c.head ∧
     (abs (crun (CSys.init 16 4096) demoOps).ch).cycle = (run (Sys.init 16) demoOps).c.cycle := by decide
+
+-- `write_avoids_mapped_readers` is not vacuous: reader 0 holds the mapped region [4096, 4106) while the writer is handed [4106, 4110)
+example : wfRun (Sys.init 16) [.join, .wmap 10, .wcommit, .rmap 0] = true ∧
+    (cstep (crun (CSys.init 16 4096) [.join, .wmap 10, .wcommit, .rmap 0]) (.wmap 4)).2 = .wok 4106 ∧
+    C02.regionLen (run (Sys.init 16) [.join, .wmap 10, .wcommit, .rmap 0]) 0 = 10 ∧
+    (crun (CSys.init 16 4096) [.join, .wmap 10, .wcommit, .rmap 0]).ch.holds_pos.getD 0 0 = 0 := by decide
 
 end AcqVerif.Channel.Refine
